@@ -30,7 +30,23 @@ var nameStems = []string{"x", "y", "var", "_t", "Temp", "a1", "ppid", "V_2", "q"
 var smlKeywords = map[string]bool{"L": true, "A": true, "B": true, "BOOLEAN": true, "F4": true, "F8": true,
 	"I1": true, "I2": true, "I4": true, "I8": true, "U1": true, "U2": true, "U4": true, "U8": true, "T": true, "F": true}
 
+// valid variable names that some conversion routine would also read as a value
+// (none of them a keyword of the SML text state in any letter case, so they stay expressible)
+var valueLikeNames = []string{"true", "false", "True", "TRUE", "False", "FALSE", "nan", "NaN", "Inf", "inf", "nil", "null",
+	"e5", "E1", "_", "__", "b0", "x1F", "W", "H", "S1F1", "tt", "ff", "yes", "no"}
+
 func (g *nameGen) fresh(r *rand.Rand) string {
+	if r.Intn(25) == 0 {
+		s := valueLikeNames[r.Intn(len(valueLikeNames))]
+		dup := false
+		for _, u := range g.used {
+			dup = dup || u == s
+		}
+		if !dup {
+			g.used = append(g.used, s)
+			return s
+		}
+	}
 	g.n++
 	s := fmt.Sprintf("%s%d", nameStems[r.Intn(len(nameStems))], g.n)
 	if r.Intn(6) == 0 {
